@@ -875,3 +875,133 @@ func ruleRangeLayouts(r *Run) {
 		o.OK("%d successful path(s), each with range -> offset? and pipeline -> unwrap?", nOK).At(r.pos(fn.Pos()))
 	}
 }
+
+// ruleUnitEvaluators (CH-SIB): a duration / bytes token is evaluated by the parser with the same
+// function the lexer validated it with (a token the lexer accepts must not be rejected, or read
+// differently, when its value is computed).
+func ruleUnitEvaluators(r *Run) {
+	p := r.P
+	su := p.Func("internal/lexerql", "ScanUnit")
+	o := r.Ob("CH-SIB", "logql.(*parser) unit evaluation", "parser.parseDuration / parseBytes compute a token's value with the function lexerql.ScanUnit validated that kind of token with")
+	if su == nil {
+		o.Fail("-", "lexerql.ScanUnit not found")
+		return
+	}
+	// validating functions of the lexer: non-first-party-free callees of ScanUnit named Parse*
+	valid := map[string]bool{}
+	for _, c := range callsIn(su) {
+		if callee := staticCallee(c); callee != nil && strings.HasPrefix(callee.Name(), "Parse") {
+			valid[funcName(callee)] = true
+		}
+	}
+	if len(valid) < 2 {
+		o.Fail(r.pos(su.Pos()), "expected ScanUnit to validate durations and byte sizes with two Parse functions, found %d", len(valid))
+		return
+	}
+	bad := false
+	for _, name := range []string{"parseDuration", "parseBytes"} {
+		fn := p.Method(logqlPkg, "parser", name)
+		if fn == nil {
+			bad = true
+			o.Fail("-", "parser.%s not found", name)
+			continue
+		}
+		// the function whose result is the value that is returned
+		n := 0
+		for _, ret := range returnsOf(fn) {
+			for _, lv := range phiLeaves(ret.Results[0]) {
+				var call *ssa.Call
+				if c, idx, ok := extractOf(stripConv(lv)); ok && idx == 0 {
+					call = c
+				} else if c, ok := stripConv(lv).(*ssa.Call); ok {
+					call = c
+				}
+				if call == nil {
+					continue // the zero value beside an error
+				}
+				callee := staticCallee(call)
+				if callee == nil {
+					continue
+				}
+				n++
+				if !valid[funcName(callee)] {
+					bad = true
+					o.Fail(r.pos(call.Pos()), "parser.%s computes the value with %s, which is not one of the functions the lexer validates unit tokens with (%v)", name, shortFuncName(callee), sortedKeysBool(valid))
+				}
+			}
+		}
+		if n == 0 {
+			bad = true
+			o.Fail(r.pos(fn.Pos()), "parser.%s: no evaluating call found", name)
+		}
+	}
+	if !bad {
+		o.OK("parseDuration and parseBytes use the lexer's validators").At(r.pos(su.Pos()))
+	}
+}
+
+func sortedKeysBool(m map[string]bool) []string {
+	var ks []string
+	for k := range m {
+		ks = append(ks, strings.ReplaceAll(k, modPath+"/", ""))
+	}
+	sort.Strings(ks)
+	return ks
+}
+
+// ruleSingleGrouping: a grouping clause (by / without) is written at most once per aggregation: no
+// successful path through an aggregation production parses two grouping clauses (the second would
+// silently replace the first).
+func ruleSingleGrouping(r *Run) {
+	p := r.P
+	lq := modPath + "/" + logqlPkg
+	for _, name := range []string{"parseVectorAggregationExpr", "parseRangeAggregationExpr"} {
+		fn := p.Method(logqlPkg, "parser", name)
+		o := r.Ob("PV-ONCE", "logql.(*parser)."+name+" grouping", "an aggregation takes at most one grouping clause, before or after its arguments: no successful parse consumes two")
+		if fn == nil {
+			o.Fail("-", "method not found")
+			continue
+		}
+		// follow only the production's own closures (not the recursive descent into operands)
+		inl := func(c *ssa.Function, d int) bool { return c.Parent() == fn && d <= 2 }
+		w := &feWalker{Fn: fn, Inline: inl, MaxPath: 50000}
+		ends := w.Run()
+		if w.Aborted {
+			o.Undecide(r.pos(fn.Pos()), "path enumeration aborted")
+			continue
+		}
+		nOK, bad, seenOne := 0, false, false
+		for _, e := range ends {
+			if e.Cut {
+				continue
+			}
+			if isErr, known := endReturnsError(e); known && isErr {
+				continue
+			}
+			if _, isRet := e.Term.(*ssa.Return); !isRet {
+				continue
+			}
+			nOK++
+			n := 0
+			for _, c := range e.State.calls {
+				if callIs(c.Call, lq, "(*parser).parseGrouping") {
+					n++
+				}
+			}
+			if n == 1 {
+				seenOne = true
+			}
+			if n > 1 && !bad {
+				bad = true
+				o.Fail(r.pos(e.Term.Pos()), "a successful path parses %d grouping clauses: `op by (a) (...) by (b)` is accepted and the last clause wins", n)
+			}
+		}
+		if nOK == 0 || !seenOne {
+			bad = true
+			o.Fail(r.pos(fn.Pos()), "no successful path with a grouping clause found (%d successful path(s))", nOK)
+		}
+		if !bad {
+			o.OK("%d successful path(s), none with more than one grouping clause", nOK).At(r.pos(fn.Pos()))
+		}
+	}
+}
